@@ -89,6 +89,38 @@ func c16(c *ctx) {
 		}
 		w.close()
 	}
+	// ---- the boundary of the counter array: a pipeline with 6 counter cells, three sessions of two PDRs each hold all of them at
+	// once (every cell index the agent can ever hand out is written), a fourth is refused; then all are deleted and it repeats
+	{
+		o := sysh.Opts{P4: true, Pool: "10.60.0.0/16", P4DefaultTC: 3, P4CtrSize: 6}
+		w, err := newWorld(c, o)
+		if err != nil {
+			panic(err)
+		}
+		w.cfgLine()
+		if w.start() {
+			w.assoc(0)
+			for round := 0; round < c.pick(2, 6); round++ {
+				var hs []*hsess
+				for k := 0; k < 4; k++ {
+					ue := w.nextUE
+					w.nextUE++
+					teid := uint32(7000 + 10*k + 100*round)
+					ul := sysh.PdrIE{ID: 1, Prec: 100, Src: u8p(0), Teid: u32p3(0, teid, n3IP), UE: u32p2(2, ue), Ohr: u8p(0), Far: 1}
+					dl := sysh.PdrIE{ID: 2, Prec: 100, Src: u8p(1), UE: u32p2(2, ue), Far: 2}
+					fars := []sysh.FarIE{{ID: 1, Act: 2, Fwd: &sysh.FwdIE{Dst: u8p(1)}}, {ID: 2, Act: 2, Fwd: &sysh.FwdIE{Dst: u8p(0), Ohc: u32p2(teid+1, 0xC6120100)}}}
+					w.nextCP++
+					if h, _ := w.est(0, w.nodes[0], w.nextCP, []sysh.PdrIE{ul, dl}, fars, nil, "c16-full-counter"); h != nil {
+						hs = append(hs, h)
+					}
+				}
+				for _, h := range hs {
+					w.del(0, h.up, "c16-full-counter")
+				}
+			}
+		}
+		w.close()
+	}
 }
 
 func c16generator(c *ctx) {
